@@ -64,6 +64,19 @@ def _run(prop, tier, replay, text, quick_frac):
         agg = merge(res)
         rep.add_tlc('StoneSemMC/' + scen, agg, {'Scenario': scen, 'OrderMode': mode, 'shards': shards, 'of': nsh})
         rep.add_judged(agg)
+    if prop == 'C11':
+        # layout: comments, blank lines, trailing whitespace/comments, broken parenthesised lists.  StoneLex proves
+        # (TLC, LayoutInvariance) that the line machine OpLex ignores them; here the real Lexer is bound to OpLex.
+        maxlines = 3 if tier == 'quick' else 4
+        res = run_shards('StoneLex',
+                         lambda s: dict(spec='Spec', constants={'Shard': s, 'NShards': 16, 'EmitVectors': True,
+                                                                'MaxLines': maxlines},
+                                        invariants=['NoCrash', 'LayoutInvariance', 'Balanced'],
+                                        constraints=['Emit', 'InShard']),
+                         list(range(16)), 'lexcheck.TextJudge', {'lexonly': True}, tlc_kwargs={'timeout': 6000})
+        agg = merge(res)
+        rep.add_tlc('StoneLex', agg, {'MaxLines': maxlines, 'alphabet': 33})
+        rep.add_judged(agg)
     rep.exhaustive = (tier == 'thorough')
     rep.coverage_extra['rule'] = text
     rep.assumptions = ['TLC 1.8; harness/semcheck.py render_model / project_api; the rule catalogue of DESIGN Appendix A as '
@@ -91,4 +104,6 @@ def check_c11(tier, replay=None):
     return _run('C11', tier, replay,
                 'every instance of the StoneSemMC scenarios authored in several orders (quick: ascending, descending, rotated; '
                 'thorough: all permutations) x file splits x file orders: verdict, projected Api and the bytes of python_types, '
-                'python_type_stubs and js_types output must coincide for all layouts of the same definitions', 2)
+                'python_type_stubs and js_types output must coincide for all layouts of the same definitions; plus every sequence of '
+                '<= 3 (thorough 4) physical lines over the 33-letter StoneLex alphabet (comments, blank and whitespace-only lines, '
+                'trailing comments, nested and broken parentheses): real Lexer skeleton = StoneLex!OpLex, whose LayoutInvariance TLC checks', 2)
